@@ -121,8 +121,9 @@ package syncer
 //@   properties C01
 //@   modifies nothing
 
-//@ func config.RedisConfig.IsCluster
+//@ func config.RedisConfig.IsCluster(self) (r)
 //@   trusted frame: reads its receiver only
+//@   ensures def: r == (self.Type == config.RedisTypeCluster)
 
 //@ func handleDirectError
 //@   arith int
@@ -283,13 +284,21 @@ package syncer
 //@   requires clean: queueClean(cmdQueue)
 //@   requires disarmed: cpArmed == 0
 //@   requires cp_monotone [C07]: shouldUpdateCP ==> lastOffset >= tCpHigh
-//@   modifies heap, cmdQueue, queuedByteSize, bLen, bFirst, bLast, bCpPuts, bCp, bCpPos, tCpHigh, cpArmed
+//@   modifies heap, cmdQueue, queuedByteSize, bLen, bFirst, bLast, bCpPuts, bCp, bCpPos, tCpHigh, cpArmed, redirected
 //@   ensures sent: result == nil && !isPipeline ==> len(cmdQueue) == 0
 //@   ensures queue_kept_or_emptied: queueClean(cmdQueue)
 //@   ensures disarmed: cpArmed == 0
 //@   ensures high: tCpHigh == old(tCpHigh) || (shouldUpdateCP && tCpHigh == lastOffset)
+//   redirected  1 when the last attempt of this flush was answered -MOVED / -ASK by a cluster node
+//   In transactional mode against a cluster the client does not follow redirects itself and the batch
+//   is a plain per-node pipeline (the brackets are dropped): when a redirect comes back, the commands in
+//   front of it have run already, so sending the batch again executes them twice.
+//@   ghost var redirected mathint = 0
+//@   set redirected = ite(result != nil && (config.SpecErrIs(result, common.ErrMove) || config.SpecErrIs(result, common.ErrAsk)), 1, 0) after call sendFuncOnce
+//@   assert at call sendFuncOnce: a_batch_a_cluster_node_redirected_in_transactional_mode_is_not_sent_again [C19 C01]: !(redirected == 1 && ro.cfg.CanTransaction && ro.cfg.Redis.Type == config.RedisTypeCluster)
 //@   loop 1:
 //@     invariant retry: queueClean(cmdQueue) && cpArmed == 0 && (tCpHigh == old(tCpHigh) || (shouldUpdateCP && tCpHigh == lastOffset))
+//@     invariant no_second_attempt_after_a_redirect_in_transactional_cluster_mode: !(redirected == 1 && ro.cfg.CanTransaction && ro.cfg.Redis.Type == config.RedisTypeCluster)
 
 // ---- the sender's event loop -------------------------------------------------------------
 //   pending  offset of the item received in this iteration that is neither queued nor
